@@ -56,7 +56,7 @@ class Tree:
             n = c.int(0, 3 if depth < 2 else 2)
             inner = t[1][1] if t[1][0] == "NN" else t[1]
             if depth == 0 and inner[0] == "N" and kind_of(self.schema, inner[1]) in ("SCALAR", "ENUM") and c.maybe(4):
-                n = c.int(129, 150)  # a long list of leaves: cheap, and beyond any batching inside the engine
+                n = c.int(129, 150) if c.maybe(75) else c.int(513, 530)  # a long list of leaves: cheap, and beyond any batching inside the engine
             return [self.gen_value(t[1], depth + 1) for _ in range(n)]
         name = t[1]
         k = kind_of(self.schema, name)
